@@ -178,6 +178,9 @@ def c02(ctx):
     s = harness_json(["replay", "--cases", cases, "--out", mism])
     cases_to_violations(ctx, s, mism, lambda c: "C02." + c["op"][2:])
     offset_date_cases(ctx)
+    # the w / q / e / D fields at every width on runs of consecutive days, judged by the pattern specification
+    tcases = gen_cases(ctx, "Gen_Text", "C02", 4, cfg="Gen_Text")
+    text_validate(ctx, observe_and_validate(ctx, tcases), "generated", {})
     ctx.distinct = range(1 << 32)
     return finish(ctx, rule="every 32-bit day number: weekday() and day_of_year() against the TLC-generated cycle table; "
                   "format fields w q e eeeeeee D on every 37th day (quick) / every day (thorough); set_day_of_year(0..367) "
@@ -891,6 +894,8 @@ def replay_text(ctx, rp):
 
 def replay_civil(ctx, rp):
     w = rp["witness"]
+    if "event" in w:
+        return replay_text(ctx, rp)        # a formatted field judged by the pattern specification
     table = civil_common(ctx)
     t = ctx.path("replay.ndjson")
     if "case" in w:
